@@ -892,7 +892,7 @@ impl Check for C14Check {
         }
     }
     fn rule(&self) -> &'static str {
-        "case = 1-3 documents built from 9 ST templates whose string literals and comments are filled from ASCII / Latin-1 / CJK / astral-plane / odd (combining, U+2028, NEL, BOM, ZWSP, NBSP) alphabets, with LF / CRLF / lone-CR / mixed terminators, with or without final terminator, plus empty and comment-only documents; history of 8-30 (quick) or 15-60 (thorough) editor operations: didOpen, didChange with 1-4 content changes each computed on the evolving buffer (insert, delete, replace, identifier rename, line insert, edit inside literal/comment, join/delete line, whole-range replace, append at EOF, full-text change, optional rangeLength, line-end positions written with a column past the end), didSave, didClose / re-open with other text, seeded query points (documentSymbol, semanticTokens/full, /full/delta against the editor's previous result, /range, pull diagnostic, formatting, rangeFormatting, documentHighlight at a seeded identifier - each for the server with history, the twin and the projection) plus one at the end of every history; 6% of cases also send positions the protocol leaves undefined (no such line, middle of a surrogate pair, start after end) followed by a full-text resync. distinct non-trivial = distinct hash of the operation list of a case in which a change was applied after a non-ASCII character on the same line or a batch had >= 2 changes"
+        "case = 1-3 documents built from 9 ST templates whose string literals and comments are filled from ASCII / Latin-1 / CJK / astral-plane / odd (combining, U+2028, NEL, BOM, ZWSP, NBSP) alphabets, with LF / CRLF / lone-CR / mixed terminators, with or without final terminator, plus empty and comment-only documents; history of 8-30 (quick) or 15-60 (thorough) editor operations: didOpen, didChange with 1-4 content changes each computed on the evolving buffer (insert, delete, replace, identifier rename, line insert, edit inside literal/comment, join/delete line, whole-range replace, append at EOF, full-text change, optional rangeLength, line-end positions written with a column past the end), didSave, didClose / re-open with other text, seeded query points (documentSymbol, semanticTokens/full, /full/delta against the editor's previous result, /range, pull diagnostic, formatting, rangeFormatting, documentHighlight at a seeded identifier - each for the server with history, the twin and the projection) plus one at the end of every history; 6% of cases also send positions the protocol leaves undefined (no such line, middle of a surrogate pair, start after end) followed by a full-text resync; later additions: reopen with a lower version, general.positionEncodings offered in 3 of 5 cases (columns are sent in the encoding the server selects), and in a third of the cases a file nobody has open that is created / changed (often back to an earlier content) / deleted on disk, whose documentSymbol / diagnostic / foldingRange answers must equal those of a fresh server. distinct non-trivial = distinct hash of the operation list of a case in which a change was applied after a non-ASCII character on the same line or a batch had >= 2 changes"
     }
     fn assumptions(&self) -> Vec<&'static str> {
         vec![
